@@ -56,6 +56,19 @@ fn pad(a: &Args) -> Args {
     assert_eq!(h.content_length, argn(a, 0) as u16);
     assert_eq!(h.padding_bytes().len(), usize::from(h.padding_length));
     assert!(h.padding_bytes().iter().all(|&b| b == 0));
+    // set_lengths is a function of the new content length alone: a header that is reused for the next record, or that was decoded
+    // from the wire, must end up with the same lengths as a fresh one, whatever lengths it carried before
+    for prior_pad in [1u8, 3, 7, 8, 0x8b, 255] {
+        for prior_len in [0u16, 5, 16, 65535] {
+            let mut h2 = fcgi::RecordHeader {
+                version: fcgi::Version::V1, rtype: fcgi::RecordType::Stdout, request_id: 1,
+                content_length: prior_len, padding_length: prior_pad,
+            };
+            h2.set_lengths(argn(a, 0) as u16);
+            assert_eq!((h2.content_length, h2.padding_length), (h.content_length, h.padding_length),
+                       "set_lengths depends on the lengths the header carried before");
+        }
+    }
     vec![vec![h.padding_length.into()]]
 }
 
